@@ -3,6 +3,7 @@ package vlib
 import (
 	"context"
 	"fmt"
+	"strings"
 	"sync"
 
 	"github.com/beevik/etree"
@@ -42,6 +43,9 @@ type NCFake struct {
 	Running []string // edits that reached the running datastore, in order
 	// Commits records the candidate content each successful commit made effective
 	Commits [][]string
+	// Config, if set, is the configuration get-config reports (sync checks); GetConfigs counts the answers
+	Config     Conf
+	GetConfigs int
 }
 
 func NewNCFake() *NCFake { return &NCFake{Alive: true} }
@@ -174,7 +178,140 @@ func (f *NCFake) other(op, tgt string) (*types.NetconfResponse, error) {
 
 func (f *NCFake) Get(filter string) (*types.NetconfResponse, error) { return f.other("Get", "") }
 func (f *NCFake) GetConfig(source string, filter string) (*types.NetconfResponse, error) {
-	return f.other("GetConfig", source)
+	f.mu.Lock()
+	cfg := f.Config
+	f.mu.Unlock()
+	if cfg == nil {
+		return f.other("GetConfig", source)
+	}
+	f.mu.Lock()
+	defer f.mu.Unlock()
+	if !f.Alive {
+		f.rec(NCCall{Op: "GetConfig", Target: source, Result: "dead"})
+		return nil, errNCDead
+	}
+	f.rec(NCCall{Op: "GetConfig", Target: source, Doc: filter, Result: "ok"})
+	f.GetConfigs++
+	return types.NewNetconfResponse(ConfToXMLData(f.Config, filter)), nil
+}
+
+// SetConfig installs / changes the configuration the device reports through get-config.
+func (f *NCFake) SetConfig(deletes []IPath, updates Conf) {
+	f.mu.Lock()
+	defer f.mu.Unlock()
+	if f.Config == nil {
+		f.Config = Conf{}
+	}
+	for _, dp := range deletes {
+		f.Config.ApplyDelete(dp)
+	}
+	for _, k := range updates.SortedKeys() {
+		f.Config.ApplyUpdate(MustCanon(k), updates[k])
+	}
+}
+
+func (f *NCFake) ConfigSnapshot() (Conf, int) {
+	f.mu.Lock()
+	defer f.mu.Unlock()
+	return f.Config.Clone(), f.GetConfigs
+}
+
+// ConfToXMLData renders the configuration leaves (state nodes excluded) as the <data> element of a
+// get-config reply: every element in the namespace of its schema node (xmlns where it changes), list
+// entries with their keys first in key-statement order, one element per leaf-list entry, empty element for
+// a presence container. A subtree filter restricts the answer to the top-level elements it names.
+func ConfToXMLData(c Conf, filter string) *etree.Document {
+	doc := etree.NewDocument()
+	data := doc.CreateElement("data")
+	want := map[string]bool{}
+	if strings.TrimSpace(filter) != "" {
+		fd := etree.NewDocument()
+		if err := fd.ReadFromString(filter); err == nil {
+			for _, e := range fd.ChildElements() {
+				want[e.Tag] = true
+			}
+		}
+	}
+	type ent struct {
+		el   *etree.Element
+		node *Node
+	}
+	find := func(parent *etree.Element, pn *Node, pe PE) (*etree.Element, *Node) {
+		n := pn.Child(pe.Name)
+		if n == nil {
+			return nil, nil
+		}
+		for _, ce := range parent.ChildElements() {
+			if ce.Tag != pe.Name {
+				continue
+			}
+			if n.Kind != KList {
+				return ce, n
+			}
+			match := true
+			for _, kn := range n.Keys {
+				ke := ce.SelectElement(kn)
+				if ke == nil || ke.Text() != pe.Keys[kn] {
+					match = false
+				}
+			}
+			if match {
+				return ce, n
+			}
+		}
+		ce := parent.CreateElement(pe.Name)
+		if n.NS != pn.NS || pn == Root {
+			ce.CreateAttr("xmlns", n.NS)
+		}
+		if n.Kind == KList {
+			for _, kn := range n.Keys {
+				ce.CreateElement(kn).SetText(pe.Keys[kn])
+			}
+		}
+		return ce, n
+	}
+	for _, k := range c.SortedKeys() {
+		p := MustCanon(k)
+		n := p.Node()
+		if n == nil || n.State || p.IsKeyLeaf() || len(p) == 0 {
+			continue
+		}
+		if len(want) > 0 && !want[p[0].Name] {
+			continue
+		}
+		cur, cn := data, Root
+		ok := true
+		for _, pe := range p[:len(p)-1] {
+			cur, cn = find(cur, cn, pe)
+			if cur == nil {
+				ok = false
+				break
+			}
+		}
+		if !ok {
+			continue
+		}
+		last := p[len(p)-1]
+		switch n.Kind {
+		case KLeafList:
+			for _, el := range ParseLL(c[k]) {
+				e := cur.CreateElement(last.Name)
+				if n.NS != cn.NS || cn == Root {
+					e.CreateAttr("xmlns", n.NS)
+				}
+				e.SetText(el)
+			}
+		case KLeaf:
+			e := cur.CreateElement(last.Name)
+			if n.NS != cn.NS || cn == Root {
+				e.CreateAttr("xmlns", n.NS)
+			}
+			e.SetText(c[k])
+		default:
+			find(cur, cn, last) // presence container
+		}
+	}
+	return doc
 }
 func (f *NCFake) Lock(t string) (*types.NetconfResponse, error)     { return f.other("Lock", t) }
 func (f *NCFake) Unlock(t string) (*types.NetconfResponse, error)   { return f.other("Unlock", t) }
